@@ -8,21 +8,24 @@ mod c02;
 mod c04;
 mod c06;
 mod c09;
+mod c10;
 mod c11;
 mod c13;
 mod c14;
 mod c15;
 mod c16;
+mod c18;
 mod c19;
 mod common;
 mod conv;
+mod queries;
 mod walk;
 
 #[global_allocator]
 static ALLOC: verif_model::alloc::Shim = verif_model::alloc::Shim;
 
 fn properties() -> Vec<run::Property> {
-    vec![c01::property(), c02::property(), c04::property(), c06::property(), c09::property(), c11::property_c11(), c11::property_c12(), c13::property(), c14::property(), c15::property(), c16::property(), c19::property()]
+    vec![c01::property(), c02::property(), c04::property(), c06::property(), c09::property(), c10::property(), c11::property_c11(), c11::property_c12(), c13::property(), c14::property(), c15::property(), c16::property(), c18::property(), c19::property()]
 }
 
 fn main() {
